@@ -16,6 +16,9 @@ import traceback
 VERIF = os.path.dirname(os.path.dirname(os.path.abspath(__file__)))
 REPO = os.environ.get("TUCAN_REPO", "/repo")
 GUARD = "TUCAN_VERIF"
+# evidence/ and replays/ live under /verif unless redirected (used only when evaluating seeded changes in
+# scratch trees, so that those runs never overwrite the evidence of the real tree)
+OUT = os.environ.get("VERIF_OUT", VERIF)
 
 
 def setup_paths() -> None:
@@ -129,7 +132,7 @@ class Report:
         return rec
 
     def _write_replays(self) -> None:
-        d = os.path.join(VERIF, "replays", self.prop)
+        d = os.path.join(OUT, "replays", self.prop)
         for rec in self.violations:
             os.makedirs(d, exist_ok=True)
             path = os.path.join(d, digest(rec) + ".json")
@@ -164,8 +167,8 @@ class Report:
             "violations": len(self.violations),
             "known_findings_hit": self.known_hits,
         }
-        os.makedirs(os.path.join(VERIF, "evidence"), exist_ok=True)
-        with open(os.path.join(VERIF, "evidence", f"{self.prop}.json"), "w") as f:
+        os.makedirs(os.path.join(OUT, "evidence"), exist_ok=True)
+        with open(os.path.join(OUT, "evidence", f"{self.prop}.json"), "w") as f:
             json.dump(ev, f, indent=1, default=str)
         print(
             f"[{self.prop} {self.tier}] states={cov['states']} transitions={cov['transitions']} "
